@@ -165,7 +165,7 @@ Section Calls.
         else if has om OpenCreateExcl then (s, inl (RFail EFileExists))
         else
           let d1 := if has om OpenTruncate then [] else d in
-          let at_ := if has om OpenAppend then Z.of_nat (length d1) else 0%Z in
+          let at_ := 0%Z in
           (with_heap s (upd (f_heap s) c (NFile d1 k i m)), inr (new_handle c vi name at_ om))
     | Some (NDir _ m) =>
         if has om OpenCreateExcl then (s, inl (RFail EFileExists))
@@ -192,7 +192,7 @@ Section Calls.
       if is_not_exist e then
         if negb (has om OpenCreate) then (s, inl (RFail e))
         else match sr_parent r with
-             | None => (s, inl RPanic)
+             | None => (s, inl (RFail e))
              | Some parent =>
                  if negb (perm_on (f_heap s) parent (N.lor OpenWrite OpenLookup) (v_user v))
                  then (s, inl (RFail EPermDenied))
